@@ -508,6 +508,11 @@ def _clean_up_state(state: State) -> None:
         for action_uid in flow_state.action_uids:
             if action_uid not in new_action_dict:
                 new_action_dict.update({action_uid: state.actions[action_uid]})
+    # Actions that have not finished yet are kept as well: their remaining events
+    # (e.g. the Finished event of an action that was asked to stop) still refer to them
+    for action_uid, action in state.actions.items():
+        if action_uid not in new_action_dict and action.status != ActionStatus.FINISHED:
+            new_action_dict.update({action_uid: action})
     state.actions = new_action_dict
 
 
